@@ -6,11 +6,19 @@
    Sequential abstraction: one operation at a time; memtable apply and the visibility update
    happen at once after the critical section (the thread-interleaving model is Conc/Pipeline.v).
    What the code does and the model keeps:
-   * Begin: start := visible; the transaction registers in the active-transaction tracker
-     (read-write and write-only) and, unless write-only, registers a snapshot.  `BUnreg` models a
-     caller of the pipeline that registered nowhere (commit.rs clamps for it).
+   * Begin: epoch := restore_epoch (read FIRST); start := visible; the transaction registers in the
+     active-transaction tracker (read-write and write-only) and, unless write-only, registers a
+     snapshot.  `BUnreg` models a caller of the pipeline that registered nowhere and uses the
+     epoch-less entry `CommitPipeline::commit` (begin_epoch = None; commit.rs clamps for it; kept
+     in the crate for its own tests only).
    * Commit with an empty write set: closes the transaction, no pipeline call.
-   * Commit: check(keys, start); on Ok: seq := next; next += count (count = number of entries =
+   * Commit: FIRST (inside the critical section, before the oracle is consulted; repair of finding
+     C04-N1) `if let Some(e) = begin_epoch { if e != restore_epoch { return Err(TransactionRetry) } }`:
+     a transaction that began before the last restore read a timeline that no longer exists; it
+     is refused with Retry with NO oracle call and no state change (no sequence number is
+     consumed).  The comparison operator is generated (Params.ORACLE_EPOCH_CMP, applied to
+     (begin_epoch, restore_epoch)).
+     Then check(keys, start); on Ok: seq := next; next += count (count = number of entries =
      number of keys, duplicates included); publish(keys, seq, count, min(oldest_active, start));
      then either success (the batch becomes visible: visible := max(visible, seq+count-1), the
      transaction closes and leaves the tracker; its snapshot stays registered until End), or a
@@ -20,17 +28,20 @@
      error (Conflict, Retry, failure).
    * End (rollback / drop): leaves both trackers.
    * Restore(max): if max > 0 then visible := max, next := max+1 (set_seq_num does nothing for 0);
-     oracle reset_for_restore(max).  Open transactions stay as they are.
+     oracle reset_for_restore(max); restore_epoch += 1 (the last step, all under write_mutex).
+     Open transactions stay as they are (in the trackers too), with the epoch they began in.
    Ghost component `c_done`: the successful commits (stamp, keys), newest first; a restore keeps
    the ones with stamp <= max (the restored store contains exactly those).
-   (Since the fix of F13 rollback puts the overwritten stamp back; see Conc/Oracle.v.) *)
+   (Since the fix of F13 rollback puts the overwritten stamp back; see Conc/Oracle.v.)
+   The machine as it was before the repair of C04-N1 (no epoch test) is kept in
+   Conc/CommitSeqOld.v (regression record only). *)
 From Coq Require Import List NArith Arith Bool.
 From SKV Require Import Params Base.Lex Conc.Oracle.
 Import ListNotations.
 Local Open Scope N_scope.
 
 Inductive bmode := BRW | BWO | BUnreg.
-Record tx := { t_start : N; t_reg : bool; t_snap : bool; t_closed : bool }.
+Record tx := { t_start : N; t_reg : bool; t_snap : bool; t_closed : bool; t_epoch : option N }.
 
 Record cstate := {
   c_txs : list (N * tx);
@@ -38,9 +49,10 @@ Record cstate := {
   c_next : N;
   c_orc : ostate;
   c_done : list (N * list bytes);
+  c_epoch : N;
 }.
 Definition c0 : cstate :=
-  {| c_txs := []; c_visible := 0; c_next := COMMIT_FIRST_SEQ; c_orc := o_new; c_done := [] |}.
+  {| c_txs := []; c_visible := 0; c_next := COMMIT_FIRST_SEQ; c_orc := o_new; c_done := []; c_epoch := 0 |}.
 
 Inductive cstep :=
 | SBegin (id : N) (m : bmode)
@@ -91,6 +103,8 @@ Variable G : N.
 Definition commit_core (s : cstate) (id : N) (t : tx) (keys : list bytes) (fail : bool)
   : cstate * outcome * list ocall :=
   let start := t_start t in
+  if match t_epoch t with Some e => ORACLE_EPOCH_CMP e (c_epoch s) | None => false end then (s, ORetry, [])
+  else
   match check fp (c_orc s) keys start with
   | VRetry => (s, ORetry, [CCheck keys start])
   | VConflict => (s, OConflict, [CCheck keys start])
@@ -103,13 +117,13 @@ Definition commit_core (s : cstate) (id : N) (t : tx) (keys : list bytes) (fail 
     if fail then
       ({| c_txs := c_txs s; c_visible := N.max (c_visible s) stamp; c_next := seq + count;
           c_orc := rollback fp o1 keys stamp;
-          c_done := c_done s |},
+          c_done := c_done s; c_epoch := c_epoch s |},
        OFailed, [CCheck keys start; CPublish keys seq count oldest; CRollback keys stamp])
     else
-      ({| c_txs := tx_set id {| t_start := start; t_reg := false; t_snap := t_snap t; t_closed := true |} (c_txs s);
+      ({| c_txs := tx_set id {| t_start := start; t_reg := false; t_snap := t_snap t; t_closed := true; t_epoch := t_epoch t |} (c_txs s);
           c_visible := N.max (c_visible s) stamp; c_next := seq + count;
           c_orc := o1;
-          c_done := (stamp, keys) :: c_done s |},
+          c_done := (stamp, keys) :: c_done s; c_epoch := c_epoch s |},
        OOk, [CCheck keys start; CPublish keys seq count oldest])
   end.
 
@@ -122,16 +136,17 @@ Definition cs_step (s : cstate) (c : cstep) : cstate * outcome * list ocall :=
       let t := {| t_start := c_visible s;
                   t_reg := match m with BUnreg => false | _ => true end;
                   t_snap := match m with BRW => true | _ => false end;
-                  t_closed := false |} in
+                  t_closed := false;
+                  t_epoch := match m with BUnreg => None | _ => Some (c_epoch s) end |} in
       ({| c_txs := tx_set id t (c_txs s); c_visible := c_visible s; c_next := c_next s;
-          c_orc := c_orc s; c_done := c_done s |}, OOk, [])
+          c_orc := c_orc s; c_done := c_done s; c_epoch := c_epoch s |}, OOk, [])
     end
   | SEnd id =>
     match tx_get id (c_txs s) with
     | None => (s, ONoTx, [])
     | Some t =>
-      ({| c_txs := tx_set id {| t_start := t_start t; t_reg := false; t_snap := false; t_closed := true |} (c_txs s);
-          c_visible := c_visible s; c_next := c_next s; c_orc := c_orc s; c_done := c_done s |}, OOk, [])
+      ({| c_txs := tx_set id {| t_start := t_start t; t_reg := false; t_snap := false; t_closed := true; t_epoch := t_epoch t |} (c_txs s);
+          c_visible := c_visible s; c_next := c_next s; c_orc := c_orc s; c_done := c_done s; c_epoch := c_epoch s |}, OOk, [])
     end
   | SCommit id keys fail =>
     match tx_get id (c_txs s) with
@@ -140,8 +155,8 @@ Definition cs_step (s : cstate) (c : cstep) : cstate * outcome * list ocall :=
       if t_closed t then (s, OClosed, [])
       else match keys with
            | [] =>
-             ({| c_txs := tx_set id {| t_start := t_start t; t_reg := false; t_snap := t_snap t; t_closed := true |} (c_txs s);
-                 c_visible := c_visible s; c_next := c_next s; c_orc := c_orc s; c_done := c_done s |}, OOk, [])
+             ({| c_txs := tx_set id {| t_start := t_start t; t_reg := false; t_snap := t_snap t; t_closed := true; t_epoch := t_epoch t |} (c_txs s);
+                 c_visible := c_visible s; c_next := c_next s; c_orc := c_orc s; c_done := c_done s; c_epoch := c_epoch s |}, OOk, [])
            | _ => commit_core s id t keys fail
            end
     end
@@ -151,7 +166,8 @@ Definition cs_step (s : cstate) (c : cstep) : cstate * outcome * list ocall :=
         c_visible := if rewind then max else c_visible s;
         c_next := if rewind then max + 1 else c_next s;
         c_orc := reset_for_restore (c_orc s) max;
-        c_done := filter (fun e => N.leb (fst e) max) (c_done s) |}, OOk, [CReset max])
+        c_done := filter (fun e => N.leb (fst e) max) (c_done s);
+        c_epoch := c_epoch s + 1 |}, OOk, [CReset max])
   end.
 
 Definition step_state (s : cstate) (c : cstep) : cstate := fst (fst (cs_step s c)).
